@@ -10,17 +10,19 @@ from __future__ import annotations
 import ast
 from ..model import qual
 from ..attrs import Typestate, NONE, NOTNONE, UNKNOWN, abstract_of
-from .common import struct_ob, U
+from .common import struct_ob, U, invert_hazard_obligations
 from . import mcmc
 from ..report import AnalysisError
-from ..term import Resolver, pmatch
+from ..term import Resolver, pmatch, abstract, anf_of
+from ..anf import R, Unsupported
+from .. import anf
 
 PAIRS = ["MetropolisChain", "GibbsChain", "PcaChain", "HamiltonianChain", "EnsembleSampler"]
 ENTRIES = ["take_step", "advance", "run_for", "get_parameter", "get_probabilities", "get_sample",
            "get_interval", "get_marginal", "mode", "save", "matrix_plot", "trace_plot", "plot_diagnostics"]
 FLOORS = {"key-agreement": 6, "reload-defined": 40, "save-defined": 5, "restored-value-flow": 4,
           "state-persisted": 7, "key-pairing": 4,
-          "stack-roundtrip": 2, "derived-consistent": 5, "slot-reselected": 1, "reloaded-limit-hook": 3}
+          "stack-roundtrip": 2, "derived-consistent": 5, "slot-reselected": 1, "reloaded-limit-hook": 3, "ctor-arg-roundtrip": 1, "adaptation-test-survives-reload": 2}
 
 
 def load_context(prog, ci):
@@ -291,6 +293,92 @@ def _derived_consistent(prog, ci, cname, lfn, lc, call, var, rel):
                      slots={"derived_from": {p: sorted(v) for p, v in dep.items() if len(v) > 1}, "passed": sorted(passed)})
 
 
+def _ctor_arg_roundtrip(prog, ci, cname, lfn, call, values, rel):
+    """A value that load hands to the constructor instead of assigning it: save wrote key k from attribute a; load passes
+    g(D[k]) for constructor parameter p; the constructor sets a = f(p).  The reloaded attribute is f(g(x)) and must be x again
+    (HamiltonianChain: temperature = 1 / D["inv_temp"], inv_temp = 1 / temperature)."""
+    out = []
+    ic0, init0 = prog.find_method(ci, "__init__")
+    if init0 is None:
+        return out
+    dname = None
+    for n in ast.walk(lfn):
+        if isinstance(n, ast.Subscript) and isinstance(n.slice, ast.Constant) and isinstance(n.slice.value, str) and isinstance(n.value, ast.Name):
+            dname = n.value.id
+            break
+    if dname is None:
+        return out
+    given = {k.arg: k.value for k in call.keywords if k.arg}
+    params0 = [a.arg for a in init0.args.args[1:]]
+    for p_, a_ in zip(params0, call.args):
+        given.setdefault(p_, a_)
+
+    def ctor_defining(attr, p_):
+        """The constructor in the MRO that assigns self.attr and has parameter p_ (a subclass constructor that forwards
+        *args / **kwargs to super().__init__ hands the keyword on unchanged)."""
+        for c in prog.mro(ci):
+            fn = c.methods.get("__init__")
+            if fn is None:
+                continue
+            names = [a.arg for a in fn.args.args[1:]] + [a.arg for a in fn.args.kwonlyargs]
+            if p_ in names and any(isinstance(st, ast.Assign) and isinstance(st.targets[0], ast.Attribute) and st.targets[0].attr == attr
+                                   for st in ast.walk(fn)):
+                return c, fn, names
+            if p_ not in names and not fn.args.kwarg:
+                return None
+        return None
+    # which attribute does each saved key come from
+    key_attr = {}
+    for k, v in values.items():
+        if isinstance(v, ast.Attribute) and isinstance(v.value, ast.Name) and v.value.id == "self":
+            key_attr[k] = v.attr
+    for p_, g in given.items():
+        keys = [n.slice.value for n in ast.walk(g) if isinstance(n, ast.Subscript) and isinstance(n.value, ast.Name) and n.value.id == dname
+                and isinstance(n.slice, ast.Constant) and isinstance(n.slice.value, str)]
+        if len(keys) != 1 or keys[0] not in key_attr:
+            continue
+        key, attr = keys[0], key_attr[keys[0]]
+        found = ctor_defining(attr, p_)
+        if found is None:
+            continue
+        ic, init, params = found
+        sn = init.args.args[0].arg
+        rz = Resolver(init, prog, ic.module, ic)
+        # the constructor's definition of that attribute, as a function of p
+        defs = [st for st in ast.walk(init) if isinstance(st, ast.Assign) and len(st.targets) == 1 and isinstance(st.targets[0], ast.Attribute)
+                and isinstance(st.targets[0].value, ast.Name) and st.targets[0].value.id == sn and st.targets[0].attr == attr]
+        if len(defs) != 1:
+            continue
+        f = rz.term(defs[0].value, defs[0], keep=(p_,))
+        if not any(isinstance(n, ast.Name) and n.id == p_ for n in ast.walk(f)) or any(
+                isinstance(n, ast.Name) and n.id in params and n.id != p_ for n in ast.walk(f)):
+            continue
+        class Unwrap(ast.NodeTransformer):
+            """float(x), int(x), bool(x), str(x), array(x), x.item() restore the Python type an .npz file erased: identities here"""
+            def visit_Call(self, n):
+                self.generic_visit(n)
+                if isinstance(n.func, ast.Name) and n.func.id in ("float", "int", "bool", "str", "array", "asarray", "list", "tuple") \
+                        and len(n.args) == 1 and not n.keywords:
+                    return n.args[0]
+                if isinstance(n.func, ast.Attribute) and n.func.attr in ("item", "tolist", "copy") and not n.args:
+                    return n.func.value
+                return n
+        try:
+            fa, _ = abstract(Unwrap().visit(ast.parse(U(f), mode="eval").body), [])
+            ga, _ = abstract(Unwrap().visit(ast.parse(U(g), mode="eval").body), [(f"{dname}['{key}']", "X__")])
+            fv = anf_of(fa)
+            gv = anf_of(ga)
+            comp = anf.subst(fv, {("sym", p_): gv})
+            ok = comp.eq(R.sym("X__"))
+            why = f"{attr} = f({p_}) with f = `{U(f)[:80]}`, {p_} = `{U(g)[:80]}`: reloaded {attr} = {comp} where {dname}['{key}'] = X__ was saved"
+        except Unsupported:
+            continue
+        out.append(struct_ob("ctor-arg-roundtrip", f"{ci.module.name}.{cname}.load[{p_}]", ok,
+                             f"save wrote key '{key}' from self.{attr}; load passes it through constructor parameter `{p_}`, and the "
+                             f"constructor must reproduce the saved value: " + why, rel, lfn.lineno, tier="F", detail=p_))
+    return out
+
+
 def _slot_reselected(prog, pc, ld, var, rel):
     """A bound-method slot (`self.proposal = self.<one of several>`) is chosen by selector methods from flag attributes.  load
     builds a fresh object and overwrites the flags from the file: the selector must run after the last flag it reads has been
@@ -398,6 +486,9 @@ def run(prog, tier):
                          f"Parameter attributes mutated by stepping but not saved+restored: {lost}", rel, gi.lineno,
                          slots={"mutated": sorted(pwrites), "saved": len(saved_attrs), "restored": len(restored)}))
     obs.append(_slot_reselected(prog, pc, ld, var, rel))
+    # the step-size / width adaptation tests `~(lo < rate < hi)`: after load the accumulators are Python floats, so the test only
+    # keeps its meaning if one side of each comparison is certainly a numpy value
+    obs.extend(invert_hazard_obligations(prog, "adaptation-test-survives-reload", ["inference/mcmc/gibbs.py", "inference/mcmc/hmc/epsilon.py"]))
     es = prog.cls("EpsilonSelector")
     erel = es.module.relpath
     li = es.methods.get("load_items")
@@ -593,6 +684,7 @@ def run(prog, tier):
                              detail=",".join(lost), slots={"mutated": sorted(W), "saved": sorted(saved_attrs)}))
 
         obs.append(_derived_consistent(prog, ci, cname, lfn, lc, call, var, rel))
+        obs.extend(_ctor_arg_roundtrip(prog, ci, cname, lfn, call, values, rel))
 
     meta = {
         "explanation": "Attribute typestate: the constructor chain of each sampler is interpreted abstractly over "
